@@ -37,13 +37,15 @@ func (this *OneWayTcpClient) zzCanarySend(p pack.Pack) error {
 }
 
 func runC06(p *core.Program, r *core.Report) {
-	r.Explanation = "Structural necessary conditions for the one-way TCP client (net/oneway). Guard: the connection and its buffered writer are shared by direct senders and the background drain; a lock-region dataflow (go/cfg) with the package-level send mutex as the lock computes, for every method, whether the mutex is held at each use of conn/wr and at each call of a method that uses them; every such use must be under the mutex (the constructor runs before publication). Single writer: bytes reach the buffered writer only in send(), which writes the whole frame buffer in one loop, and only Flush() flushes. Close on error: every caller that gets an error from send() reaches Close() before it continues, Close() forgets the connection, send() reconnects when there is none and Connect() replaces the writer together with the connection. Error visibility: a function with a named error result and a deferred recover assigns the error in the handler (otherwise a panic in the send path is reported as success). FIFO: queue mode enqueues at the tail (Queue.Put) and the drain takes from the head; exactly one drain goroutine is started, in the singleton constructor. Frame content is C05.frame."
+	r.Explanation = "Structural necessary conditions for the one-way TCP client (net/oneway). Guard: the connection and its buffered writer are shared by direct senders and the background drain; a lock-region dataflow (go/cfg) with the package-level send mutex as the lock computes, for every method, whether the mutex is held at each use of conn/wr and at each call of a method that uses them; every such use must be under the mutex (the constructor runs before publication). Single writer: bytes reach the buffered writer only in send(), which writes the whole frame buffer in one loop, and only Flush() flushes. Close on error: every caller that gets an error from send() reaches Close() before it continues, Close() forgets the connection, send() reconnects when there is none and Connect() replaces the writer together with the connection. Error visibility: a function with a named error result and a deferred recover assigns the error in the handler (otherwise a panic in the send path is reported as success). FIFO: queue mode enqueues at the tail (Queue.Put) and the drain takes from the head; exactly one drain goroutine is started, in the singleton constructor. License in effect: the per-send options are applied to a fresh option struct on every send and the header hashes the per-send license when non-empty, else the client's (shared with C05.frame; the remaining frame layout is C05)."
 	r.NotDecided = []string{"linearisation of concurrent sends, at-most-once delivery, loss accounting", "behaviour at every fault point (peer closes before/between/in the middle of frames)"}
 	r.Rule("C06.guard", "conn/wr are used only with the send mutex held (or before the client is published)", 10)
 	r.Rule("C06.single-writer", "only send() writes to the buffered writer (whole frame in one loop); only Flush() flushes", 2)
 	r.Rule("C06.close-on-error", "after a failed send the caller closes the connection; Close forgets it; send reconnects; Connect replaces conn and writer together", 6)
 	r.Rule("C06.error-visible", "deferred recover in a function with a named error result assigns the error", 1)
 	r.Rule("C06.fifo", "queue mode: tail enqueue, head dequeue, one drain goroutine", 3)
+	r.Rule("C06.license", "each frame hashes the license in effect for that send: options applied to a fresh struct per send; per-send license if non-empty, else the client's", 4)
+	c05Frame(p, r, "C06.license", true)
 
 	pk := p.Pkg("net/oneway")
 	if pk == nil {
